@@ -246,6 +246,13 @@ def execute(case):
                 for pth in (outp, outp + '.index'):
                     if os.path.exists(pth):
                         os.remove(pth)
+                if op[1] % 3 == 1:
+                    # what an earlier, interrupted recovery into the same name leaves behind
+                    with open(outp + '.part', 'wb') as f:
+                        f.write(b'left over from an interrupted recovery ' * 7)
+                    out.label('recover-over-leftover-part-file')
+                elif os.path.exists(outp + '.part'):
+                    os.remove(outp + '.part')
                 opts = Options(mode=repozo.RECOVER, repository=repo, date=date, output=outp, withverify=op[2])
                 held = repo_files()
                 # the last backup not later than the date that the repository still holds
